@@ -1,15 +1,15 @@
 SPECIFICATION Spec
 CONSTANTS
-  FeatLo = 0 FeatHi = 60 OptSets <- OptWidth LevSets <- LevAll
+  FeatLo = 0 FeatHi = 8 OptSets <- OptWidth LevSets <- LevAll
   Orders = {"std", "rev", "mix", "featfirst"}
   Casings = {"lower", "upper", "mixed"}
   Encs = {"pm", "zo", "bool"}
   NanCls = {"none", "first", "last", "two", "mid", "all"}
-  Chunks = {2, 3, 4, 5, 6, 7, 8, 9, 10, 11, 12, 13, 14, 15, 16, 17, 18, 19, 20}
-  Workers = {1, 2}
+  Chunks = {2, 3}
+  Workers = {1, 2, 3}
   RowCls = {"one", "two", "three"}
   Errs = {"none"}
-  NRows = 3 Rotate = TRUE RotK = 2
+  NRows = 3 Rotate = TRUE RotK = 3
   AsIs_Remainder1Only = FALSE AsIs_ChargeDefaultName = TRUE
   Mut_KeepSingleNaN = FALSE Mut_CaseSensitive = FALSE Mut_ZeroIsTarget = FALSE Mut_KeyFileOrder = FALSE
 INVARIANT InputsInDomain
